@@ -79,6 +79,7 @@ type witness struct {
 	input     []byte
 	extra     map[string]any
 	count     int64
+	rank      int64
 }
 
 type collector struct {
@@ -87,17 +88,24 @@ type collector struct {
 }
 
 func (c *collector) add(key string, input []byte, extra map[string]any, what func() string) {
+	c.addRanked(key, 0, input, extra, what)
+}
+
+// addRanked orders witnesses by rank first (used for streamed inputs, whose
+// recorded bytes are only the header: rank is the total input length).
+func (c *collector) addRanked(key string, rank int64, input []byte, extra map[string]any, what func() string) {
 	c.mu.Lock()
 	defer c.mu.Unlock()
 	w := c.best[key]
 	if w == nil {
 		w = &witness{key: key}
 		c.best[key] = w
-	} else if !smaller(input, w.input) {
+	} else if rank > w.rank || rank == w.rank && !smaller(input, w.input) {
 		w.count++
 		return
 	}
 	w.count++
+	w.rank = rank
 	w.input = append([]byte(nil), input...)
 	w.what = what()
 	w.extra = extra
